@@ -59,7 +59,7 @@ def labelled_frame(rnd, g, ns, nf, base=None):
         m = rand_mask(rnd, g, ns, nf)
         r, c = np.nonzero(m)
     n = rnd.choice([1, 2, 3, 7, len(r)])
-    n = max(1, min(n, len(r)))
+    n = max(1, min(n, len(r), 300))  # overlaps_matrix is quadratic in the number of labels by design
     lab = g.integers(1, n + 1, len(r)).astype(np.int32)
     lab[rnd.randrange(len(r))] = n  # label at capacity
     return r.astype(np.uint16), c.astype(np.uint16), lab, n
